@@ -1008,6 +1008,10 @@ impl<'a> World<'a> {
                         }
                     }
                 }
+                500 => {
+                    // the server's reply to a failed read on this client's own socket
+                    // (a server-generated reply to this client's own input; allowed)
+                }
                 other => {
                     return self.fail("unexpected-status", format!("client {} received a {} response it gave no cause for", c, other));
                 }
